@@ -9,17 +9,24 @@ META = dict(
               "after every event; direct oracle (a node that becomes leader lacks an entry a leader committed earlier) on the implementation's states",
     level_text="The full property is machine-checked FALSE of the faithful model: witness histories with one leader per term end with a new leader that lacks an entry committed by an earlier leader, with FOUR independent causes - "
                "the leader commits an entry of an older term by counting replicas (old-term-commit); an Append is acknowledged from a diverged log (ack-from-diverged-log); the leader counts a peer-table row that is not an "
-               "acknowledgement of its current term and commits an entry held by fewer than a quorum (commit-without-quorum, NEW: found while attempting the conditional proof, 5 nodes, not found by the random search); "
+               "acknowledgement of its current term and commits an entry held by fewer than a quorum (commit-without-quorum, repaired by the patch below; found while attempting the conditional proof, 5 nodes, not found by the random search); "
                "a voter acknowledging an Append below its voted term (only before the C27 repairs) - and two through the election defects of C27. All are reproduced on the real code and recorded as known findings. "
-               "CONDITIONAL THEOREM (C29_partial), machine-checked for the code now in /repo (model revision rr_fixed = with both C27 election repairs), every cluster size other than 1 and every adversarial event list: "
-               "if none of the three log-replication markers (ack-from-diverged-log, old-term-commit, commit-without-quorum) occurs in the run, every entry committed by a leader of term t is in the log of every node that becomes "
-               "leader later for a HIGHER term (Raft's Leader Completeness) - these three classes are the only ways the repaired raft.rs can lose a leader-committed entry to a leader of a higher term. "
+               "REPAIR OF THE THIRD CLASS (fixes/C28-count-only-current-term-acks.diff: rows of the other nodes cleared when a node becomes Leader; Ok answers to Append/Heartbeat requests of another term ignored): third revision flag "
+               "fix_ack_term of the model; the check reads the tree it runs against and selects the revision (rr_before_ack_fix = both C27 election repairs only, rr_fixed = all three repairs), cross-checked by behaviour. Machine-checked: "
+               "the commit-without-quorum witness holds in every revision WITHOUT the repair (C29_refuted_commit_noquorum, ..._before_ack_fix, C29_two_classes_not_enough), the SAME event lists are harmless under rr_fixed "
+               "(C29_commit_noquorum_witness_harmless_fixed), and the ROOT-CAUSE THEOREM C29_no_stale_ack_fixed (full: every cluster size, every adversarial event list): with the repair no Leader ever counts, at a step that raises its "
+               "commit index, a peer-table row that was not written by commit() from an Ok answer to a request of its current term since it became Leader (marker stale_ack_counted_b, also computed by the harness and compared on every event list; "
+               "set in the corpus witnesses before the repair: C29_stale_ack_before_ack_fix). On a tree WITH the repair the class commit-without-quorum is reported as repaired-class-reappeared-commit-without-quorum (a VIOLATION); "
+               "on a tree without it, it stays a known finding. "
+               "CONDITIONAL THEOREM (C29_partial), machine-checked for model revision rr_fixed, every cluster size other than 1 and every adversarial event list: "
+               "if none of the three log-replication markers (ack-from-diverged-log, old-term-commit, and the SEMANTIC marker commit-without-quorum) occurs in the run, every entry committed by a leader of term t is in the log of every node that becomes "
+               "leader later for a HIGHER term (Raft's Leader Completeness) - these three classes are the only ways raft.rs can lose a leader-committed entry to a leader of a higher term. PARTIAL: the third hypothesis is kept although "
+               "its root cause is repaired in rr_fixed, because the semantic marker is also set in harmless histories of the repaired code; dropping it needs Raft's acknowledgement-history argument, not done. "
                "The LITERAL statement of the property (every later leader, whatever its term) additionally needs the absence of a harmless situation - a stale candidate of an OLDER term collects delayed votes and becomes leader of that "
                "older term after the commit (C29_partial_literal) - and C29_literal_refuted_by_late_leader shows (3 nodes, 26 events, none of the six classes) that this extra hypothesis cannot be dropped: the literal statement is "
                "stronger than Raft's property (the oracles check the higher-term form). The hypotheses are non-vacuous (fault-free 3-node history with leader commits). "
-               "The model carries the revision of the election code (C27): the check reads raft.rs and compares with the model of that revision; "
-               "the refutations through the three log-replication classes are machine-checked for EVERY revision, the other three only before the C27 repairs - on a tree "
-               "with the repairs their classes are no longer accepted as known findings. The model is tied to /repo on every run by comparing complete cluster states after every event of seeded adversarial event lists; "
+               "The refutations through ack-from-diverged-log and old-term-commit are machine-checked for EVERY revision (they remain with all repairs), the election ones only before the C27 repairs - on a tree "
+               "with the repairs their classes are no longer accepted as known findings. The model is tied to the tree under test on every run by comparing complete cluster states after every event of seeded adversarial event lists; "
                "a new leader missing a leader-committed entry in a history outside the listed classes is a VIOLATION.",
     design_ref="DESIGN.md §5 C29, C27–C30 common",
     level_note="The property is NOT a theorem of the code as it is (three open defect classes, known findings); what is proved is that nothing else can break it for leaders of higher terms. "
